@@ -55,7 +55,15 @@ class SgrState:
         if k < 18 or in_grammar:
             return num(rng, rng.choice(NOOP)), 1
         # outside the grammar (model = implementation must still hold)
-        j = rng.randrange(6)
+        j = rng.randrange(7)
+        if j == 6:
+            # colour components / indices beyond their range, up to and past the parser's saturation point 65535
+            big = [256, 300, 65534, 65535, 65536, 99999, 4294967296]
+            t = rng.choice([38, 48, 58])
+            sep = rng.choice([";", ":"])
+            comps = [rng.randrange(256) for _ in range(3)]
+            comps[rng.randrange(3)] = rng.choice(big)
+            return sep.join([str(t), "2"] + [str(v) for v in comps]), 5
         if j == 0:
             return num(rng, rng.choice(OUTSIDE)), 1
         if j == 1:
